@@ -6,6 +6,7 @@ import ast
 from ..absint import TOP, Const, ExtRef, Interp, Tup
 from ..domains.affine import A, AffineDomain, BoolAnd, BoolC, BoolOr, mkA
 from ..repo import calls_in, dotted, norm_src, walk_no_nested
+from ..match import Matcher, src as msrc
 from .common import kwarg, need_funcs
 
 U_ = "acryo/_utils.py::"
@@ -86,7 +87,9 @@ def layout_clause(model, rep, funcs):
         # half spectrum: only the last axis is truncated to n//2 + 1
         s = norm_src(f.node)
         ifs = [n_ for n_ in walk_no_nested(f.node) if isinstance(n_, ast.If) and norm_src(n_.test) == "real"]
-        ok_half = len(ifs) == 1 and "shape[-1] // 2 + 1" in norm_src(ifs[0]) and "ranges[-1] = ranges[-1][:limit]" in norm_src(ifs[0])
+        MW = Matcher(f)
+        ok_half = len(ifs) == 1 and (MW.has("if real:\n    $lim = shape[-1] // 2 + 1\n    $rg[-1] = $rg[-1][:$lim]") or
+                                     MW.has("if real:\n    $rg[-1] = $rg[-1][:shape[-1] // 2 + 1]"))
         rep.ob("L", a, "with real=True only the last axis is truncated to n//2 + 1 (the rfftn layout)", ok_half, "", node=f.node, fn=f, clause="2 layout",
                stmt=f"weight half ({a})")
     if len(results) == 2:
@@ -103,15 +106,20 @@ def formula_clause(model, rep, funcs):
         rep.instance("H.weight", f.loc())
         dom = AffineDomain(model, positive_syms={"q2", "order"})
         it = Interp(model, dom, depth=0)
-        wf = [n for n in walk_no_nested(f.node) if isinstance(n, ast.Assign) and norm_src(n.targets[0]) == "wfilt"]
+        MW = Matcher(f)
+        bw: dict = {}
+        okq, _ = MW.all_of(["$q2 = reduce($$add, $$grid)", "return $$w"], bw)
+        wf = [r for r in walk_no_nested(f.node) if isinstance(r, ast.Return) and r.value is not None]
         ok = None
         det = ""
-        if wf:
-            env = {"q2": dom.sym("q2"), "order": dom.sym("order")}
-            got = it.eval(wf[0].value, dict(env), f)
-            want = it.eval(ast.parse("1 / (1 + q2 ** order)", mode="eval").body, dict(env), f)
+        if okq and len(wf) == 1:
+            q2n = msrc(bw["q2"][1])
+            wexpr = MW.expr(wf[0].value, keep=(q2n,))
+            env = {q2n: dom.sym("q2"), "order": dom.sym("order")}
+            got = it.eval(wexpr, dict(env), f)
+            want = it.eval(ast.parse("1 / (1 + q2 ** order)", mode="eval").body, {"q2": dom.sym("q2"), "order": dom.sym("order")}, f)
             ok = isinstance(got, A) and isinstance(want, A) and got.equals(want)
-            det = f"wfilt = {norm_src(wf[0].value)}"
+            det = f"weight = {norm_src(wexpr)}"
         rep.ob("H", a, "weight = 1 / (1 + q2**order): gain 1 at zero frequency, real and positive", ok, det, node=(wf[0] if wf else f.node), fn=f,
                clause="3 formula", stmt=f"wfilt ({a})")
         loops = [lp for lp in walk_no_nested(f.node) if isinstance(lp, ast.For) and norm_src(lp.iter) == "shape"]
@@ -121,7 +129,8 @@ def formula_clause(model, rep, funcs):
             lp = loops[0]
             dv = norm_src(lp.target)
             divs = [n for n in ast.walk(lp) if isinstance(n, ast.BinOp) and isinstance(n.op, ast.Div) and "arange" in norm_src(n.left)]
-            sq = [n for n in ast.walk(lp) if isinstance(n, ast.BinOp) and isinstance(n.op, ast.Pow) and norm_src(n.left) == "axis"]
+            axn = [msrc(bb["ax"][1]) for _, bb in MW.find("$ax = $$ar / $$den", within=lp) if "arange" in msrc(bb["ar"][1])]
+            sq = [n for n in ast.walk(lp) if isinstance(n, ast.BinOp) and isinstance(n.op, ast.Pow) and norm_src(n.left) in axn]
             apps = [c for c in ast.walk(lp) if isinstance(c, ast.Call) and isinstance(c.func, ast.Attribute) and c.func.attr == "append"]
             d2 = AffineDomain(model, positive_syms={dv, "cutoff"})
             it2 = Interp(model, d2, depth=0)
@@ -133,7 +142,8 @@ def formula_clause(model, rep, funcs):
             ok2 = den_ok and sq_ok
             det2 = f"denominator ok: {den_ok} ({norm_src(divs[0].right) if divs else None}); squared before the sum: {sq_ok}"
         red = [c for c in calls_in(f) if dotted(c.func) == "reduce"]
-        sum_ok = bool(red) and norm_src(red[0].args[0]).endswith("add") and "meshgrid(*ranges, indexing='ij', sparse=True)" in norm_src(red[0])
+        sum_ok = bool(red) and norm_src(red[0].args[0]).endswith("add") and bool(loops) and \
+            MW.all_of(["$rg = []", "$rg.append($$e)", "reduce($$add, $$xp.meshgrid(*$rg, indexing='ij', sparse=True))"])[0]
         rep.ob("H", a, "each axis contributes (k / (d * cutoff))**2 (frequency in cycles per pixel over the cutoff), squared before the sparse-meshgrid sum",
                (ok2 and sum_ok) if ok2 is not None else None, det2 + f"; sum over axes ok: {sum_ok}", node=f.node, fn=f, clause="3 formula", stmt=f"q2 ({a})")
         # the weight depends on the image only through its shape  => linear filter
